@@ -294,7 +294,9 @@ func VerifC18Join() {
 // VerifC18GroupBy: CustomTriggerGroupBy grouping by the record's event time (key column 0 =
 // Time(event time), keyEventTimeIndex 0) with count(*); TRIGGER 0 watermark trigger, 1 counting
 // trigger (every record), 2 end-of-stream trigger, 3 counting trigger with keyEventTimeIndex -1,
-// 4 counting trigger firing on every second record of a key.
+// 4 counting trigger firing on every second record of a key, 5 counting trigger (every record) with
+// ONE constant key and keyEventTimeIndex -1 (the same key fires repeatedly at different event
+// times with watermarks in between: SELECT count(*) ... GROUP BY const TRIGGER COUNTING 1).
 func VerifC18GroupBy() {
 	s := ndTimedScript("s", zzverif.Param("L"), zzverif.Param("T"), false)
 	for i := range s.msgs {
@@ -313,16 +315,20 @@ func VerifC18GroupBy() {
 		trig = execution.NewCountingTriggerPrototype(1)
 	case 2:
 		trig = execution.NewEndOfStreamTriggerPrototype()
-	case 3:
+	case 3, 5:
 		trig = execution.NewCountingTriggerPrototype(1)
 		keyTimeIndex = -1
 	default:
 		trig = execution.NewCountingTriggerPrototype(2)
 	}
+	var keyExpr execution.Expression = execution.NewVariable(0, 0)
+	if zzverif.Param("TRIGGER") == 5 {
+		keyExpr = execution.NewConstant(octosql.NewInt(7))
+	}
 	node := nodes.NewCustomTriggerGroupBy(
 		[]func() nodes.Aggregate{aggregates.NewCountPrototype()},
 		[]execution.Expression{execution.NewConstant(octosql.NewBoolean(true))},
-		[]execution.Expression{execution.NewVariable(0, 0)},
+		[]execution.Expression{keyExpr},
 		keyTimeIndex, vx.NewScriptSource(s.msgs), trig)
 	sink := &vx.Sink{}
 	err := vx.RunNode(node, sink)
